@@ -167,6 +167,8 @@ def make_partition_class(kind, K=3, rng=None, observer=None, pre_observer=None):
                 return nd
 
             mark = len(rng.log) if rng is not None else 0
+            was_leaf = parent.get_children() is None
+            flag_ok = bool(newlayer) == (parent.get_depth() >= self.get_depth())
             if Instr._pre_observer is not None:
                 Instr._pre_observer(self, parent, bool(newlayer))
             self.node = factory
@@ -185,7 +187,7 @@ def make_partition_class(kind, K=3, rng=None, observer=None, pre_observer=None):
                 call = {"log_range": (mark, len(rng.log) if rng is not None else 0),
                         "parent": getattr(parent, "_vid", None), "newlayer": bool(newlayer),
                         "dim": dim, "pts": pts, "created": [c._vid for c in created],
-                        "was_leaf": None}
+                        "was_leaf": was_leaf, "flag_ok": flag_ok}
                 self._calls.append(call)
                 Instr._glog.append(call)
                 if Instr._observer is not None:
